@@ -334,6 +334,116 @@ def run_history(init_state, acts, states, rep, own, label):
     return n
 
 
+HPS = ["app_1.ex:1965", "app-1.ex:1965", "app_1.ex:1966"]
+KEY = {"app_1.ex:1965": "a", "app-1.ex:1965": "b", "app_1.ex:1966": "c"}
+
+
+def random_history_traces(rep, rnd, count, own):
+    """B2: long random histories (generated here, not by TLC) on one real client; recorded and validated by TLC against
+    TofuTrace - conformance of every step and every invariant at every step."""
+    import json as _json
+    certs = ["c1", "c2"]
+    traces = []
+    for _ in range(count):
+        presents = {h: rnd.choice(certs + ["unreadable"]) for h in HPS}
+        tofu_on = rnd.random() < 0.85
+        w = World(presents, tofu_on, HPS)
+        steps = []
+        try:
+            for _ in range(rnd.randint(8, 40)):
+                pins = w.pins()
+                kinds = ["Call", "Call", "Call", "CallDropped", "Redirected", "RedirectRotate", "Rotate"]
+                if tofu_on:
+                    kinds += ["Trust", "Clear", "ImportMerge", "ImportUpdate", "ImportReplace"]
+                    if any(v != "none" for v in pins.values()):
+                        kinds.append("Revoke")
+                k = rnd.choice(kinds)
+                h = rnd.choice(HPS)
+                if k in ("Call", "CallDropped"):
+                    act = (k, rnd.choice(["get", "upload"]), h)
+                elif k == "Redirected":
+                    h2 = rnd.choice([x for x in HPS if x != h])
+                    act = (k, h, h2)
+                elif k == "RedirectRotate":
+                    h2 = rnd.choice(HPS)
+                    c = rnd.choice([x for x in certs + ["unreadable"] if x != w.presents[h2]])
+                    act = (k, h, h2, c)
+                elif k == "Rotate":
+                    c = rnd.choice([x for x in certs + ["unreadable"] if x != w.presents[h]])
+                    act = (k, h, c)
+                elif k == "Revoke":
+                    h = rnd.choice([x for x, v in pins.items() if v != "none"])
+                    act = (k, h)
+                elif k == "Clear":
+                    act = (k,)
+                else:
+                    act = (k, h, rnd.choice(certs))
+                obs = w.do(act)
+                p = obs["pins"]
+                st = {"act": list(act), "pins": {KEY[x]: p[x] for x in HPS}, "ok": False, "err": "", "h": "none", "got": []}
+                if "_extra_rows" in p:
+                    st["pins"]["a"] = "extra-rows"
+                if obs["res"] is not None:
+                    r = obs["res"]
+                    st.update({"ok": r["ok"], "err": r["err"] if not r["ok"] else "", "h": r.get("h") or "none", "got": obs["got"]})
+                steps.append(st)
+        finally:
+            w.close()
+        traces.append({"presents": {KEY[x]: presents[x] for x in HPS}, "tofuOn": tofu_on, "steps": steps})
+    fd, tpath = tempfile.mkstemp(prefix="vf-tofu-", suffix=".json")
+    with os.fdopen(fd, "w") as f:
+        _json.dump(traces, f)
+    try:
+        tr, reached = tlc.validate_traces("TofuTrace", "TofuTrace.cfg", tpath, timeout=1200)
+    finally:
+        os.unlink(tpath)
+    rep.tlc("TofuTrace", tr)
+    acc = 0
+    nsteps = 0
+    for i, t in enumerate(traces, 1):
+        info = reached.get(i)
+        if info is None:
+            raise tlc.TLCError("TofuTrace did not reach trace %d" % i)
+        nsteps += len(t["steps"])
+        bad = set()
+        for (l, fl) in info["bad"]:
+            for k_, ok in enumerate(fl):
+                if not ok:
+                    bad.add(FLAGS[k_])
+        if info["max"] == len(t["steps"]) + 1 and not bad:
+            acc += 1
+            continue
+        at = info["max"]
+        step = t["steps"][at - 1] if at - 1 < len(t["steps"]) else None
+        desc = "random history (presents=%s tofu=%s): matched %d of %d steps; next step %s; history so far %s" % (
+            t["presents"], t["tofuOn"], at - 1, len(t["steps"]), step, [s_["act"] for s_ in t["steps"][:at]])
+        mine = sorted(bad & own)
+        if mine:
+            rep.violation({"formula": mine[0], "trace": True}, "%s falsified on a recorded history: %s" % (mine, desc), t)
+        elif step is not None and step["act"][0] in ("Call", "CallDropped", "Redirected", "RedirectRotate"):
+            # the specification cannot explain what the call returned / pinned: judge with the formula the step belongs to
+            formula = "PinRespected" if step["ok"] else "ChangedFails"
+            if formula in own or pid_generic(own):
+                rep.violation({"formula": formula, "trace": True, "rejected": True},
+                              "recorded history is not a behaviour of Tofu at a client call: %s" % desc, t)
+            else:
+                rep.drifted("recorded history rejected by TofuTrace: " + desc)
+        else:
+            rep.violation({"formula": "Isolation", "trace": True, "rejected": True},
+                          "recorded history is not a behaviour of Tofu at a trust-store operation: %s" % desc, t) if "Isolation" in own \
+                else rep.drifted("recorded history rejected by TofuTrace: " + desc)
+    rep.add("random_histories", len(traces))
+    rep.add("random_histories_accepted", acc)
+    rep.add("random_history_steps", nsteps)
+    rep.add("traces_validated_against_impl", acc)
+    if traces:
+        rep.sample({"recorded_history_prefix": traces[0]["steps"][:5], "presents": traces[0]["presents"]})
+
+
+def pid_generic(own):
+    return "PinRespected" in own
+
+
 def main(pid="C03", rep=None, finish=True):
     rep = rep or evidence.Report(pid, "model_checking")
     thorough = rep.tier == "thorough"
@@ -386,6 +496,7 @@ def main(pid="C03", rep=None, finish=True):
                 rep.sample({"history": [list(a) for a in acts], "presents": sts[0]["presents"], "tofuOn": sts[0]["tofuOn"],
                             "final_pins": sts[-1]["pins"]})
         rep.add("behaviours_replayed", nb)
+        random_history_traces(rep, random.Random(rep.seed * 3 + 33), 400 if thorough else 80, own)
         rep.add("history_steps_executed", steps)
         rep.add("traces_validated_against_impl", n + nb)
         rep.assume("peers are scripted transports presenting the chosen DER through ssl_object.getpeercert(binary_form=True); "
